@@ -50,6 +50,11 @@ EVENT_ENV = {"Jupiter.passage_nodes": 30.0, "Saturn.passage_nodes": 100.0, "Uran
              "Uranus.perihelion_aphelion": 10.0}
 #   backward drift (days) of the answer for one and the same node passage: Saturn <= 10.4, Uranus <= 69
 BACK_ENV = {"Saturn.passage_nodes": 12.0, "Uranus.passage_nodes": 80.0}
+# share of the orbital-finder queries of one search run that may raise (known finding) before it is "gross":
+# unchanged tree, the sweeps' own sampling (both ends of the range + random eras), seeds 0..5:
+#   quick (300 queries/planet): Jupiter 13.3..21.7 %, Saturn 15.7..18.3 %; thorough (3936): Jupiter 8.7..11.2 %, Saturn 8.2..9.5 %
+RAISE_RATE_MAX = {"Jupiter": 0.35, "Saturn": 0.30}
+RAISE_RATE_MIN_QUERIES = 40
 RAISE_ENV = {"Jupiter": "Invalid interval: Probably no root exists", "Saturn": "Invalid interval: Probably no root exists"}
 
 # perihelion_aphelion interpolates the same VSOP87 radius vector the oracle uses: on the unchanged tree its answer is
@@ -322,9 +327,13 @@ def sweep(mods, sky, planet, fname, variant, start, nper, steps, add, stats, che
         q = start + i * P / steps
         if q < JD_LO or q > JD_HI: continue
         stats["evaluations"] += 1
+        if orbital:
+            stats["orbital_queries"][planet] = stats["orbital_queries"].get(planet, 0) + 1
         try:
             res, extra = call(mods, planet, fname, variant, q)
         except Exception as ex:
+            if orbital:
+                stats["orbital_raises"][planet] = stats["orbital_raises"].get(planet, 0) + 1
             if orbital and isinstance(ex, ValueError) and RAISE_ENV.get(planet) == str(ex):
                 key = "orbital-finder-raises:%s" % planet
                 stats["known"][key] = stats["known"].get(key, 0) + 1
@@ -395,7 +404,7 @@ def search(rng, tier, deep):
             findings.append({"key": key, "what": what, "input": [planet, fname, variant, q],
                              "replay": replay_cmd(planet, fname, variant, q)})
     stats = {"evaluations": 0, "distinct_nontrivial": 0, "events_checked": 0, "gaps": {}, "known": {},
-             "max_backward_drift_days": {},
+             "max_backward_drift_days": {}, "orbital_queries": {}, "orbital_raises": {},
              "known_envelopes": {"event_offset_days": EVENT_ENV, "backward_drift_days": BACK_ENV,
                                  "measured_on_unchanged_tree": "event offsets (max over -2000..4000): Jupiter nodes 15..20 d, Saturn nodes 60..80 d, Uranus nodes 400..500 d, "
                                  "Uranus perihelion/aphelion 6..8 d; backward drift within one node passage: Saturn <= 10.4 d, Uranus <= 69 d; "
@@ -416,6 +425,15 @@ def search(rng, tier, deep):
             sweep(mods, sky, p, f, v, s, nper, steps, add, stats, ce)
         if (p, f, v) == ("Mercury", "passage_nodes", False):
             sweep(mods, sky, p, f, v, 3147984.071399223, 1, 1, add, stats, 1)
+    # the known "orbital finder raises" finding is bounded in rate: a change that makes the finder raise (much) more
+    # often is reported under a key of its own
+    for p in ORBITAL:
+        nq, nr = stats["orbital_queries"].get(p, 0), stats["orbital_raises"].get(p, 0)
+        if nq >= RAISE_RATE_MIN_QUERIES and nr / nq > RAISE_RATE_MAX.get(p, 0.0):
+            findings.append({"key": "orbital-finder-raises-gross:%s" % p,
+                             "what": "%s.perihelion_aphelion / passage_nodes raised for %d of %d queries (%.1f %%; calibrated maximum %.0f %%)"
+                                     % (p, nr, nq, 100.0 * nr / nq, 100.0 * RAISE_RATE_MAX.get(p, 0.0)),
+                             "input": [p, nr, nq], "replay": "see the orbital-finder-raises / raises findings of this run for a concrete query"})
     # (c) refusals
     for p, fs in PERIODIC.items():
         cls = getattr(mods[p], p)
